@@ -55,7 +55,9 @@ func (its *Timestamp) ToString() string {
 // DON'T change this because protocol can be broken : TODO: this can be improved.
 func (its *Timestamp) Hash() string {
 	var b strings.Builder
-	_, _ = fmt.Fprintf(&b, "%d%d%d%s", its.Era, its.Lamport, its.Delimiter, its.CUID)
+	// The fields are separated: without separators (lamport 2, delimiter 10) and (lamport 21, delimiter 0)
+	// produced the same key. The key is only used for in-memory indexes, never on the wire or in snapshots.
+	_, _ = fmt.Fprintf(&b, "%d:%d:%d:%s", its.Era, its.Lamport, its.Delimiter, its.CUID)
 	return b.String()
 }
 
